@@ -48,6 +48,9 @@ CHECKS = {
  "C18": ("exploration", "generated (instant, offset) pairs plus all 2879 offsets at fixed instants; an own civil-time formatter is the oracle for every back-end's output, and every back-end must parse all four spec forms to the reference instant/offset; chrono::Local is exercised in child processes with TZ set per offset",
          "trusted: REF-TIME (own proleptic Gregorian conversion)",
          "property-based testing (proptest) and exhaustive offset enumeration against a reference formatter; cross-back-end differential"),
+ "C10": ("exploration", "generated documents (page trees with shuffled sparse numbering, generations, shared/cyclic/dangling references, unreachable objects, bookmarks) are renumbered from six kinds of start values; every object carries a unique marker so the renaming is recovered independently of the library's traversal and checked as one bijection over trailer, reachable objects, page order and bookmark targets",
+         "trusted: the marker-based recovery of the renaming, the harness's own reachability analysis, CANON",
+         "model-based property testing (proptest): graph isomorphism under one recovered bijection"),
 }
 NA = {}
 def main():
